@@ -252,7 +252,7 @@ def rule_qm(ctx):
 
 RULES = [
     ("QM-INV", rule_qm, 40),
-    ("SHAPE", rule_shape, 15),
+    ("SHAPE", rule_shape, 9),
     ("TYPE-GUARD", rule_typeguard, 3),
     ("ESCSET", rule_escset, 5 * 128 + 1),
     ("ACCESSOR", rule_accessor, 4),
